@@ -41,8 +41,6 @@ def known_class(j, cat, text):
         return "KF-PVF-TINY-FILE"
     if f.major == 0x0E and j.sr < 10 and cat in ("frames", "roundtrip", "eof", "snapshot"):
         return "KF-PVF-SHORT-HEADER"
-    if f.major == 0x02 and j.sr >= 2 ** 30 and cat == "rate":
-        return "KF-AIFF-RATE-2POW30"
     if f.major in (0x06, 0x21) and j.sr >= 65536 and j.sr % 65536 == 0 and cat in ("reopen", "snapshot", "roundtrip", "frames", "eof"):
         return "KF-RATE16-WRAP"
     if f.major == 0x0A and j.sr >= 2 ** 31 - 64 and cat in ("reopen", "snapshot", "roundtrip", "frames", "eof"):
